@@ -375,7 +375,8 @@ impl<'a> G<'a> {
             0 | 1 => self.int(),
             2 => self.string(),
             3 => { let k = self.r.below(20) as usize; format!("buf {}", hex(&self.r.bytes(k))) }
-            4 => format!("eisa {}", hx(&format!("{}{}{}{:04X}", (b'A' + self.r.below(26) as u8) as char, (b'A' + self.r.below(26) as u8) as char, (b'A' + self.r.below(26) as u8) as char, self.r.below(65536)))),
+            // (product numbers from the scalar mix: 0000, 0001, 00FF … make the id's integer constant narrow)
+            4 => format!("eisa {}", hx(&format!("{}{}{}{:04X}", (b'A' + self.r.below(26) as u8) as char, (b'A' + self.r.below(26) as u8) as char, (b'A' + self.r.below(26) as u8) as char, if self.r.coin() { self.r.scalar(16) } else { self.r.below(65536) }))),
             5 => { let k = self.r.below(5); let mut el: Vec<String> = (0..k).map(|_| self.data(depth - 1)).collect();
                    if !el.is_empty() && self.r.below(4) == 0 { let j = self.r.below(el.len() as u64) as usize; let d = el[j].clone(); el.push(d); }
                    format!("{} {} {}", if self.r.coin() { "pkg" } else { "pkgb" }, el.len(), el.join(" ")).trim_end().to_string() }
